@@ -113,9 +113,8 @@ def replay(case):
     variants = [('hosvd', lambda xs, ys: tedmd.amuset_hosvd(x, xs, ys, basis(), threshold=1e-12)),
                 # the same (integer-valued) snapshots stored with an integer dtype
                 ('hosvd_int', lambda xs, ys: tedmd.amuset_hosvd(x.astype(np.int64), xs, ys, basis(), threshold=1e-12))]
-    # a rank cap that does not bind (the largest TT rank of Psi) must not change anything
-    dims0 = list(psi.shape)
-    rcap = max(int(np.linalg.matrix_rank(psi.reshape(int(np.prod(dims0[:b])), -1))) for b in range(1, len(dims0)))
+    # a rank cap that cannot bind must not change anything: Psi is a sum of m elementary tensors, so every TT rank is <= m
+    rcap = m
     variants.append(('hosvd_cap', lambda xs, ys: tedmd.amuset_hosvd(x, xs, ys, basis(), threshold=1e-12, max_rank=rcap)))
     # requested rank = the largest true rank of Psi (a request above the numerical rank with duplicate snapshots makes the
     # cross approximation hit singular submatrices)
